@@ -16,7 +16,8 @@ PID = "C01"
 sys.set_int_max_str_digits(0)
 THEOREMS = ["ivt_inverse", "ivt_words_untouched_elsewhere", "ivt_words_describe", "flags_decode", "len_is_sum_plain_crc",
             "mbi_roundtrip_plain_crc", "mbi_roundtrip_refuted", "reexport_stable", "mro_resolution_all_classes", "wf_class_sweep",
-            "class_selection_sweep", "class_selection_refuted", "manifest_flags_and_is_bitwise"]
+            "class_selection_sweep", "class_selection_refuted", "manifest_flags_and_is_bitwise", "disassemble_cuts_collect",
+            "hmac_finalize_inverse_except_known"]
 MIXIN_IDS = regen_c01.MIXIN_IDS
 UNSUPPORTED = {"MixinBcaTable", "MixinBcaObsolete", "MixinFcfObsolete", "MixinCertBlockVx", "MixinBca", "MixinFcf",
                "ExportMixinAppBcaFcf", "ExportMixinAppFcf", "ExportMixinCrcSignBca", "ExportMixinEccSignVx", "MixinManifest"}
@@ -180,11 +181,11 @@ def gen_cases(tier, rng, db):
     k = 0
     for fam, t, a, c, dup in reps:
         ms = set(mixset(c))
-        n = (2 if dup else 6) if thorough else nvar
+        n = (8 if dup else 40) if thorough else nvar
         if not supported(c):
             n = min(n, 2)
         for v in range(n):
-            ln = LENGTHS_QUICK[k % len(LENGTHS_QUICK)] if (not thorough or v < 2) else rng.randrange(0x38, 0x801)
+            ln = LENGTHS_QUICK[k % len(LENGTHS_QUICK)] if (not thorough or v < 4) else (0x38 + (k * 7 + v) % 0x7C9)
             if not supported(c):
                 ln = 0xC00 + 64 + 4 * v       # BCA based families need the whole header area
             k += 1
@@ -503,6 +504,16 @@ def oracle(case, res, db):
     if kind == "bca" and "MixinBca" in ms and w32(app_in, 0x24) & 0x3F != res["image_type"]:
         cls.append("no-ivt-type-bits")
     sel = res.get("parsed_mixins_short")
+    if sel is None:
+        # the documented selection rule: the first offer of the family with the image type found in the image
+        f = db.fams[db.fidx[case["family"]]]
+        ty = f["fixed_image_type"] if f["fixed_image_type"] >= 0 else res["image_type"]
+        cn = next((cn for _, _, cn in f["offers"] if f["classes"][cn]["image_type"] == ty), None)
+        if cn is not None and cn != res.get("class"):
+            sel = short(f["classes"][cn]["mixins"])
+            if sorted(sel) != sorted(ms):
+                cls.append("image-type-ambiguity(" + "+".join(m for m in sorted(set(ms) ^ set(sel))) + ")")
+            sel = None
     if sel is not None and sorted(sel) != sorted(ms) and res.get("parsed_class") != res.get("class"):
         cls.append("image-type-ambiguity(" + "+".join(m for m in sorted(set(ms) ^ set(sel))) + ")")
     ctag = ",".join(cls) if cls else "general"
@@ -538,8 +549,13 @@ def oracle(case, res, db):
         if w32(hdr, 0x34) != la:
             fail("header:load", f"IVT word 0x34 = {w32(hdr, 0x34):#x}, load address {la:#x}")
         w28 = w32(hdr, 0x28)
-        if kind == "plain" and w28 != 0:
+        # what the *offer* promises (authentication type asked for), not what the class happens to be made of
+        if case["auth"] == "plain" and w28 != 0:
             fail("header:crc-cert", f"plain image with word 0x28 = {w28:#x}")
+        if case["auth"] == "crc" and kind != "crc":
+            fail("header:crc-missing", "the class offered for authentication type CRC does not compute a CRC")
+        if case["auth"] in ("signed", "nxp_signed", "encrypted") and kind not in ("signed-v1", "signed-v21", "encrypted", "bca"):
+            fail("header:signature-missing", "the class offered for a signed authentication type has no certificate block / signature")
         if kind == "crc":
             want = crc32_mpeg(image[0x2C:], crc32_mpeg(image[:0x28]))
             if w28 != want:
@@ -627,6 +643,13 @@ def oracle(case, res, db):
 
 
 # ------------------------------------------------------------------ main
+def clean_work():
+    """remove the scratch data of a run (proposed_fix_*.diff files written for the lead are kept)"""
+    import glob
+    for f in glob.glob(os.path.join(WORKDIR, "impl*")) + glob.glob(os.path.join(WORKDIR, "dump.json")):
+        shutil.rmtree(f, ignore_errors=True) if os.path.isdir(f) else os.remove(f)
+
+
 def short(names):
     return [n[len("Mbi_"):] for n in names]
 
@@ -652,8 +675,8 @@ def same_parse(pv, mv, ms):
 def run(tier):
     rep = vlib.Report(PID, tier)
     rng = vlib.Rng(vlib.seed())
-    shutil.rmtree(WORKDIR, ignore_errors=True)
     os.makedirs(WORKDIR, exist_ok=True)
+    clean_work()
     d = None
     try:
         d = regen_c01.regen()
@@ -814,7 +837,7 @@ def run(tier):
     for name, st in stats.items():
         rep.add_stream(name, st["n"], len(st["distinct"]), samples=st["samples"], exhaustive=False,
                        extra={"built": st["built"], "parsed_back": st["parsed"]})
-    shutil.rmtree(WORKDIR, ignore_errors=True)
+    clean_work()
     return rep.finish(
         rule="quick: one (family, class) per distinct mixin composition, thorough: every (family, offer) of the database; payload "
              "lengths cover every residue mod 4 and mod 16 and the 512-byte boundaries up to 2 KiB; options drawn from VERIF_SEED; "
